@@ -23,10 +23,11 @@ def conv_arms(items):
     seen = set()
     for it in items:
         mdl, t = it.mdl, it.type
-        if (t, it.kind) in seen:
+        kk = 'dec' if it.kind in ('c06d', 'c06s', 'c06t') else it.kind
+        if (t, kk) in seen:
             continue
-        seen.add((t, it.kind))
-        if it.kind == 'c06d':
+        seen.add((t, kk))
+        if it.kind in ('c06d', 'c06s', 'c06t'):
             body = [f'("{t}", "spec") => {{ match {t}::decode_full(b) {{ Err(e) => format!("ERR {{}}", dvariant(&e)), Ok(p) => {{',
                     '    let mut out = String::from("OK spec=");',
                     '    match p.specialize() {']
@@ -59,7 +60,7 @@ def replay_native(runner: NativeRunner, it: KItem, inp):
     obs, bad = {}, False
     mdl, t = it.mdl, it.type
     for profile in ('dev', 'release'):
-        if it.kind == 'c06d':
+        if it.kind in ('c06d', 'c06s', 'c06t'):
             r = runner.run(profile, t, 'spec', inp)
             obs[profile] = r[:500]
             if not r.startswith('OK'):
@@ -128,7 +129,7 @@ def _subtree_matches(mdl, P, X, pv):
 
 
 def extract(it: KItem, vals):
-    if it.kind == 'c06d':
+    if it.kind in ('c06d', 'c06s', 'c06t'):
         return kcheck.decode_input_from_vals(vals, it.L)
     return venc.extract_words(it, vals)
 
@@ -141,7 +142,7 @@ def main(tier, seed):
     def want(mdl, u, t, d):
         ks = []
         if mdl.children(t):
-            ks.append('c06d')
+            ks.extend(['c06s', 'c06t'] if tier == 'quick' else ['c06d'])
         if mdl.decls[t].parent:
             ks.append('c06v')
         return ks
